@@ -94,7 +94,7 @@ def _has_definition_content_patterns(content: str) -> bool:
     """
     try:
         tree = ast.parse(content)
-    except SyntaxError:
+    except (SyntaxError, RecursionError, MemoryError):
         return False
 
     # Check for many UPPERCASE constants
